@@ -170,6 +170,7 @@ class Func:
         self._preds = None
         self._dom = None
         self._pdom = None
+        self._loop_assigned = None
 
     # -- locations -------------------------------------------------------------------
     def loc(self, nid):
@@ -514,8 +515,13 @@ class Func:
         return any(pred(a, t) for a, t, _ in self.guards(point))
 
     def precedes(self, e1, e2):
-        """Event e1 is executed before e2 on every path reaching e2, and never after it."""
-        return self.dominates(e1.point, e2.point) and not self.reaches(e2.point, e1.point)
+        """Event e1 is executed before e2 on every path reaching e2, and (within one loop
+        iteration) never after it."""
+        return self.dominates(e1.point, e2.point) and not self.reaches(e2.point, e1.point, acyclic=True)
+
+    def ordered(self, e1, e2):
+        """Within one loop iteration e2 can follow e1 but e1 can never follow e2 (neither needs to dominate)."""
+        return self.reaches(e1.point, e2.point, acyclic=True) and not self.reaches(e2.point, e1.point, acyclic=True)
 
     def reachable_without_edges(self, target_block, edges, start=None):
         """Is target_block reachable from entry when the given (src, label) edges are removed?"""
@@ -533,9 +539,11 @@ class Func:
                     seen.add(s_); dq.append(s_)
         return False
 
-    def reaches(self, p1, p2, avoiding=()):
-        """Is there a CFG path from point p1 to point p2 that avoids the given points?"""
+    def reaches(self, p1, p2, avoiding=(), acyclic=False):
+        """Is there a CFG path from point p1 to point p2 that avoids the given points?
+        acyclic=True: back edges are not followed (same loop iteration)."""
         avoiding = set(avoiding)
+        be = self.back_edges() if acyclic else ()
         b1, i1 = p1; b2, i2 = p2
         def blocked(b, lo, hi):
             return any(ab == b and lo <= ai < hi for ab, ai in avoiding)
@@ -544,7 +552,7 @@ class Func:
             return True
         if blocked(b1, i1 + 1, n1 + 1):
             return False
-        seen = set(); dq = deque(s for s, _ in self.succs(b1))
+        seen = set(); dq = deque(s for s, _ in self.succs(b1) if (b1, s) not in be)
         while dq:
             b = dq.popleft()
             if b in seen:
@@ -557,7 +565,8 @@ class Func:
             if blocked(b, 0, len(self.blocks[b]['elems']) + 1):
                 continue
             for s, _ in self.succs(b):
-                dq.append(s)
+                if (b, s) not in be:
+                    dq.append(s)
         return False
 
     def back_edges(self):
@@ -569,6 +578,31 @@ class Func:
                 if b in d and s in d[b]:
                     r.add((b, s))
         return r
+
+    def loop_assigned(self):
+        """{loop header block: set of local variable names stored to inside that natural loop}."""
+        if getattr(self, '_loop_assigned', None) is not None:
+            return self._loop_assigned
+        out = {}
+        for (src, hdr) in self.back_edges():
+            body = {hdr, src}; st = [src]
+            while st:
+                x = st.pop()
+                if x == hdr:
+                    continue
+                for p, _ in self.preds()[x]:
+                    if p not in body:
+                        body.add(p); st.append(p)
+            vs = out.setdefault(hdr, set())
+            for b in body:
+                for ev in self.block_events(b):
+                    # only scalar (non-pointer) locals: counters and flags.  Pointer locals keep their
+                    # path value (documented imprecision: a pointer carried over from an earlier
+                    # iteration is not modelled).
+                    if ev.kind == 'store' and ev.lhs.k == 'ref' and ev.lhs.dk in ('var', 'parm', 'svar') and '*' not in (ev.lhs.ty or '*'):
+                        vs.add(ev.lhs.s)
+        self._loop_assigned = out
+        return out
 
     def in_loop(self, bid):
         """Is the block inside a natural loop?  Returns the set of loop headers."""
@@ -661,7 +695,12 @@ class Func:
     def path_events(self, path):
         """Events along a path, with ('assume', cond, label) pseudo-events at branches."""
         out = []
+        la = self.loop_assigned()
         for b, lab in path:
+            if b in la:
+                ev = Event('loophead', args=sorted(la[b]))
+                ev.block = b; ev.idx = -1; ev.loc = self.where()
+                out.append(ev)
             out.extend(self.block_events(b))
             if lab is not None:
                 c = self.cond(b)
@@ -756,6 +795,8 @@ def cond_atom(c):
     a != 0 -> (a, True); a == 0 / 0 == a -> (a, False)."""
     pol = True
     while True:
+        if c.k == 'asg' and c.op == '=':
+            c = c.ch[1]; continue
         if c.k == 'un' and c.op == '!':
             c = c.ch[0]; pol = not pol; continue
         if c.k == 'bin' and c.op in ('==', '!='):
